@@ -322,7 +322,10 @@ def make_violation_replay(prop, o, r, why, out, scratch):
 
 
 def write_evidence(prop, tier, seed, pobls, st, fns, wall, nviol, out, gen_s):
-    os.makedirs(os.path.join(VERIF, "evidence"), exist_ok=True)
+    # runs against a modified copy of the code (seeded changes, experiments) must not overwrite the
+    # evidence of the real tree: they set VERIF_EVIDENCE_DIR
+    evdir = os.environ.get("VERIF_EVIDENCE_DIR") or os.path.join(VERIF, "evidence")
+    os.makedirs(evdir, exist_ok=True)
     assumptions = []
     notes = []
     trusted_fns = []
@@ -375,4 +378,4 @@ def write_evidence(prop, tier, seed, pobls, st, fns, wall, nviol, out, gen_s):
     cov.update(extra)
     ev = {"property_id": prop, "tier": tier, "seed": seed, "level": "proof", "coverage": cov,
           "assumptions": assumptions, "wall_s": round(wall, 2), "violations": nviol}
-    json.dump(ev, open(os.path.join(VERIF, "evidence", prop + ".json"), "w"), indent=1, default=str)
+    json.dump(ev, open(os.path.join(evdir, prop + ".json"), "w"), indent=1, default=str)
